@@ -147,6 +147,7 @@ class DynModel(Model):
         self.known_callables = {}      # dotted name -> handler(ex, args, kwargs, st, node) -> V
         self.self_name = "self"
         self.ground_rules = {k: list(v) for k, v in GROUND_RULES.items()}
+        self.hole_strings = set()      # attribute names that are hole tokens: they denote string *variables* str.<token>
         self.yield_mode = "seq"        # "seq": indexable ghost log `_yielded`; "stream": abstract stream `_stream` (supports yield from)
         self.yield_checks = []         # (name, contract-language expression over the env + `_value`) checked at every yield
 
@@ -179,7 +180,7 @@ class DynModel(Model):
         """rule(term) -> list of ground facts; applied to every ground application of `decl_name` in a query."""
         self.ground_rules.setdefault(decl_name, []).append(rule)
 
-    def ground_instances(self, formulas, rounds=4):
+    def ground_instances(self, formulas, rounds=10):
         facts, done = [], set()
         cur = list(formulas)
         # aliases: an opaque term known (by a top-level equation) to equal a set_(...) term is read through that term
@@ -215,6 +216,11 @@ class DynModel(Model):
             cur = new
         return facts
 
+    def attr_term(self, name):
+        if isinstance(name, str):
+            return z3.Const("str." + name, S) if name in self.hole_strings else z3.StringVal(name)
+        return name
+
     # ---- conversions --------------------------------------------------------------------------------------
     def dyn(self, ex, v):
         """Any V -> dynamic Ref value."""
@@ -240,7 +246,7 @@ class DynModel(Model):
 
     def global_name(self, ex, name, st):
         v = super().global_name(ex, name, st)
-        if v is not None and not (v.ty is PY and isinstance(v.py, tuple) and v.py and v.py[0] == "pytype" and name not in ("str", "int", "bool")):
+        if v is not None and not (v.ty is PY and isinstance(v.py, tuple) and v.py and v.py[0] == "pytype" and name not in ("str", "int", "bool", "dict")):
             return v
         return V(z3.Const("g." + name, Ref), ANY)
 
@@ -251,7 +257,7 @@ class DynModel(Model):
 
     def getattr(self, ex, base, attr, st, node=None):
         if base.ty == ANY:
-            return V(dget(base.term, z3.StringVal(attr)), ANY)
+            return V(dget(base.term, self.attr_term(attr)), ANY)
         if base.ty is PY and isinstance(base.py, tuple) and base.py and base.py[0] == "dotted":
             return pyv(("dotted", base.py[1] + "." + attr))
         return super().getattr(ex, base, attr, st, node)
@@ -299,9 +305,9 @@ class DynModel(Model):
 
     def _set_path(self, obj, path, val):
         if len(path) == 1:
-            return set_(obj, z3.StringVal(path[0]), val)
-        inner = dget(obj, z3.StringVal(path[0]))
-        return set_(obj, z3.StringVal(path[0]), self._set_path(inner, path[1:], val))
+            return set_(obj, self.attr_term(path[0]), val)
+        inner = dget(obj, self.attr_term(path[0]))
+        return set_(obj, self.attr_term(path[0]), self._set_path(inner, path[1:], val))
 
     def setitem(self, ex, base, idx, val, st, node):
         root, path = self._root_path(node.value)
@@ -309,7 +315,7 @@ class DynModel(Model):
             return False
         cur = st.env[root].term
         for p in path:
-            cur = dget(cur, z3.StringVal(p))
+            cur = dget(cur, self.attr_term(p))
         new = fn("dyn.setitem", Ref, Ref, Ref, Ref)(cur, self.dyn(ex, idx).term, self.dyn(ex, val).term)
         st.env[root] = V(self._set_path(st.env[root].term, path, new) if path else new, ANY)
         return True
@@ -335,7 +341,7 @@ class DynModel(Model):
                 h = self.known_callables.get("*." + name.split(".")[-1])
             if h is not None:
                 args = [ex.ev(a, st) for a in e.args]
-                kwargs = {k.arg: ex.ev(k.value, st) for k in e.keywords}
+                kwargs = {(k.arg if k.arg is not None else "**"): ex.ev(k.value, st) for k in e.keywords}
                 return h(ex, args, kwargs, st, e)
             if isinstance(e.func, ast.Name) and (e.func.id in BUILTINS or e.func.id in self.specs):
                 return super().call_node(ex, e, st)
